@@ -56,7 +56,9 @@ def history(m, seed_label, steps, with_queries, fails, params):
     rng = gen.rng_path(m.seed, seed_label)
     qrng = gen.rng_path(m.seed, seed_label, "queries")
     D = int(rng.integers(1, 4)); R = int(rng.integers(1, 3))
-    cur = mk_measure(m, rng, R, D).reg if rng.random() < 0.5 else mk_pdf(m, rng, R, D).reg
+    start = int(rng.integers(0, 6))     # full measure / full density twice as likely as the diagonal classes
+    cur = (mk_measure(m, rng, R, D).reg if start in (0, 1) else mk_pdf(m, rng, R, D).reg if start in (2, 3)
+           else mk_measure(m, rng, R, D, diag=True).reg if start == 4 else mk_pdf(m, rng, R, D, diag=True).reg)
     trace = []
     for s in range(steps):
         o = m.regs.get(cur)
@@ -68,9 +70,13 @@ def history(m, seed_label, steps, with_queries, fails, params):
         is_pdf = hasattr(o, "get_marginal")
         ops = ["multiply", "hadamard", "hadamard1", "product", "slice", "get_density"]
         if is_pdf:
-            ops += ["joint", "marginal", "condition", "posterior", "linear_sum"]
+            ops += ["joint", "marginal", "condition", "posterior", "linear_sum", "update"]
             if D >= 2:
                 ops += ["get_marginal"]
+        if not is_pdf and rng.random() < 0.3:
+            ops = ["get_density"]           # come back to a density: the density-only operations are part of the histories
+        elif is_pdf and rng.random() < 0.5:
+            ops = [x for x in ops if x in ("joint", "marginal", "condition", "posterior", "linear_sum", "update", "get_marginal")]
         op = ops[int(rng.integers(0, len(ops)))]
         kind = ["general", "onerank", "linear", "constant", "measure"][int(rng.integers(0, 5))]
         uf = bool(rng.integers(0, 2))
@@ -89,6 +95,12 @@ def history(m, seed_label, steps, with_queries, fails, params):
             nxt = m.slice(cur, gen.index_array(rng, R, N=int(rng.integers(1, 4))))
         elif op == "get_density":
             nxt = m.query("get_density", cur)
+        elif op == "update":
+            # in-place replacement of some components: every cache of the addressed components must follow
+            K = int(rng.integers(1, R + 1))
+            d = mk_pdf(m, rng, K, D, diag=(type(o).__name__ == "GaussianDiagPDF"), scale=2.0)
+            m.update(cur, rng.permutation(R)[:K], d.reg)
+            nxt = cur
         elif op == "get_marginal":
             nxt = m.get_marginal(cur, gen.subset(rng, D, proper=True))
         elif op == "linear_sum":
@@ -154,14 +166,40 @@ def case_history(i, steps):
     return Case(label, fn)
 
 
-def case_single(kind, uf, cached, R1, R2, D):
-    """one product via the fast path (cached covariance) against full inversion"""
-    label = f"paths/{kind}/uf{int(uf)}/cached{int(cached)}/R{R1}x{R2}/D{D}"
+def case_update(R, D, diag, q):
+    """density with filled caches (query q) -> update(idx, d) in place -> every cache follows; then a product on top"""
+    label = f"update/R{R}/D{D}/diag{int(diag)}/{q}"
     def fn(m):
         rng = gen.rng_path(m.seed, label)
         fails = []
-        u = mk_measure(m, rng, R1, D); f = mk_factor(m, rng, kind, R2, D)
-        params = dict(kind=kind, uf=uf, cached=cached, R1=R1, R2=R2, D=D)
+        params = dict(R=R, D=D, diag=diag, query=q)
+        p = mk_pdf(m, rng, R, D, diag=diag)
+        if q == "integrate_x":
+            m.integrate(p.reg, "x")
+        elif q != "none":
+            m.query(q, p.reg)
+        K = int(rng.integers(1, R + 1))
+        d = mk_pdf(m, rng, K, D, diag=diag, scale=2.0)
+        m.update(p.reg, rng.permutation(R)[:K], d.reg)
+        check_inv(m, fails, p.reg, "update", params)
+        r = m.query("log_integral", p.reg)
+        fail_if(fails, PROPERTY, "update:log_integral", "mass of a density after update() != 1", np.asarray(m.regs[r]), np.zeros(R), tol=1e-7, params=params, signed_dev=True)
+        f = mk_factor(m, rng, "onerank", 1, D)
+        h = m.hadamard(p.reg, f.reg, bool(rng.integers(0, 2)))
+        check_inv(m, fails, h, "update:hadamard", params)
+        return fails
+    return Case(label, fn)
+
+
+def case_single(kind, uf, cached, R1, R2, D, diag=False):
+    """one product via the fast path (cached covariance) against full inversion; diag: the left operand is a
+    GaussianDiagMeasure (the factor is not diagonal in general, so the product must not be treated as diagonal)"""
+    label = f"paths/{kind}/uf{int(uf)}/cached{int(cached)}/R{R1}x{R2}/D{D}" + ("/diag" if diag else "")
+    def fn(m):
+        rng = gen.rng_path(m.seed, label)
+        fails = []
+        u = mk_measure(m, rng, R1, D, diag=diag); f = mk_factor(m, rng, kind, R2, D)
+        params = dict(kind=kind, uf=uf, cached=cached, R1=R1, R2=R2, D=D, diag=diag)
         if cached:
             m.query("integral", u.reg)
         for op in ("multiply", "hadamard"):
@@ -188,4 +226,9 @@ def cases(seed, tier):
         for cached in (False, True):
             out.append(case_single(kind, True, cached, 2, 3, 3))
             out.append(case_single(kind, True, cached, 1, 2, 2))
+            out.append(case_single(kind, False, cached, 2, 2, 3))
+        for uf in (False, True):
+            out.append(case_single(kind, uf, bool(uf), 2, 2, 3, diag=True))
+    for i, q in enumerate(["log_integral", "integral_light", "integrate_x", "none"]):
+        out.append(case_update(2 + i % 2, 1 + i % 3, bool(i % 2), q))
     return seeded(out, seed)
